@@ -8,7 +8,7 @@ from ..engine import flow
 from ..engine.mutate import Mutant, Variant, in_function, replace_once
 from ..engine.runner import Rule
 from ..engine.source import AnalysisError, Evaluator
-from .common import callee_name, calls_in
+from .common import callee_name, calls_in, kwarg
 
 EXPLANATION = (
     "Static analysis of the RPC layer. Exposure gate: in _call_procedure the invocation is dominated by the "
@@ -178,6 +178,40 @@ def rule_framing(ctx):
         ctx.check("_encode_message(call_id, body)" in ast.unparse(f.node), fq, "all senders use the one encoder", "a sender frames messages itself", "shared encoder")
 
 
+def rule_fragmentation(ctx):
+    """R-C16-8: a reply may arrive in any number of pieces; per-connection state belongs to one connection."""
+    rd = ctx.prog.func("rpc._SocketReader.readexactly")
+    loops = [w for w in ast.walk(rd.node) if isinstance(w, ast.While)]
+    recvs = [c for c in calls_in(rd.node) if callee_name(c) == "recv"]
+    if not recvs:
+        raise AnalysisError("_SocketReader.readexactly no longer calls recv")
+    in_loop = [w for w in loops if any(c in list(ast.walk(w)) for c in recvs)]
+    ok = bool(in_loop) and all(re.search(r"len\(self\._buffer\) < size|size > len\(self\._buffer\)", ast.unparse(w.test)) for w in in_loop) and len(in_loop) == len(loops)
+    ctx.check(ok and all(any(c in list(ast.walk(w)) for w in in_loop) for c in recvs), rd.fq, "recv is repeated until the requested number of bytes is buffered",
+              "a single recv is taken for the whole message: a reply that arrives in more than one piece (split header, body larger than the socket buffer) fails on the blocking client although the director answered correctly", "while len(buffer) < size: recv", where=ctx.where_of(rd))
+    raises = [n for n in ast.walk(rd.node) if isinstance(n, ast.Raise)]
+    guards = []
+    for r in raises:
+        for n in ast.walk(rd.node):
+            if isinstance(n, ast.If) and any(x is r for x in ast.walk(n)):
+                guards.append(ast.unparse(n.test))
+    ctx.check(bool(raises) and all(re.fullmatch(r"len\((\w+)\) == 0|not (\w+)", g) for g in guards) and len(guards) >= len(raises), rd.fq, "only a zero-length read means the peer is gone", f"raises under {guards}: a short read is treated as a lost connection", "len(fragment) == 0")
+    # per-instance state: no attrs field of the connection / client classes shares a mutable default
+    mod = ctx.prog.module("rpc")
+    nfields = 0
+    for cls in [n for n in ast.walk(mod.tree) if isinstance(n, ast.ClassDef)]:
+        for st in cls.body:
+            if isinstance(st, ast.AnnAssign) and isinstance(st.value, ast.Call) and callee_name(st.value) in ("field", "ib"):
+                d = kwarg(st.value, "default")
+                if d is None:
+                    continue
+                nfields += 1
+                mutable = isinstance(d, (ast.List, ast.Dict, ast.Set, ast.ListComp, ast.DictComp, ast.SetComp)) or (isinstance(d, ast.Call) and callee_name(d) in ("set", "list", "dict", "deque", "defaultdict", "OrderedDict", "Queue", "Event", "Lock", "bytearray"))
+                ctx.check(not mutable, f"rpc.{cls.name}", f"field {ast.unparse(st.target)}: default is not a shared mutable object", f"`default={ast.unparse(d)}` is evaluated once: every instance of {cls.name} shares that object, so the calls in flight (or pending replies) of one connection are cancelled, awaited or answered by another", "immutable default or factory", where=f"stepup/core/rpc.py:{st.lineno}")
+    if nfields < 3:
+        raise AnalysisError("rpc.py: attrs fields with defaults not found")
+
+
 def rule_failure_mapping(ctx):
     """R-C16-5."""
     te = ctx.prog.func("rpc.RemoteFailure.to_exception")
@@ -286,10 +320,13 @@ RULES = [
     Rule("R-C16-4", "framing agreement", rule_framing, min_instances=8),
     Rule("R-C16-5", "failure mapping", rule_failure_mapping, min_instances=5),
     Rule("R-C16-6", "peers cannot wedge the server", rule_peers, min_instances=5),
+    Rule("R-C16-8", "replies may be fragmented; connection state is per connection", rule_fragmentation, min_instances=5),
     Rule("R-C16-7", "pending futures are completed only when not cancelled", rule_future_typestate, min_instances=4),
 ]
 
 MUTANTS = [
+    Mutant("shared-task-set", "rpc.py", replace_once("_tasks: set[asyncio.Task] = attrs.field(init=False, factory=set)", "_tasks: set[asyncio.Task] = attrs.field(init=False, default=set())"), ("R-C16-8",)),
+    Mutant("single-recv", "rpc.py", in_function("_SocketReader.readexactly", replace_once("        while len(self._buffer) < size:\n            fragment = self.sock.recv(4096)\n            if len(fragment) == 0:\n", "        if len(self._buffer) < size:\n            fragment = self.sock.recv(max(size, 4096))\n            if len(fragment) < size - len(self._buffer):\n")), ("R-C16-8",)),
     Mutant("no-gate", "rpc.py", in_function("_call_procedure", replace_once("    if not is_rpc_allowed(procedure):\n        raise RPCError(f\"Remote procedure {call.name} exists but is not allowed\")\n", "")), ("R-C16-1",)),
     Mutant("default-allowed", "rpc.py", in_function("is_rpc_allowed", replace_once('getattr(func, "_allow_rpc", False)', 'getattr(func, "_allow_rpc", True)')), ("R-C16-1",)),
     Mutant("undecorated-handler", "director.py", lambda t: t.replace("    @allow_rpc\n    async def hold_dispatch(", "    async def hold_dispatch(", 1) if "    @allow_rpc\n    async def hold_dispatch(" in t else None, ("R-C16-1",)),
